@@ -514,6 +514,26 @@ def _recognise_postfix(tags, guard, gop, body, params, table):
                         return True
             return False
 
+        # which tokens (besides the end of input) end a list after a comma
+        closers = set()
+        n_tests = 0
+        for st in body:
+            for c in ast.walk(st):
+                if isinstance(c, ast.Compare) and len(c.ops) == 1 and \
+                        ast.unparse(c.left) == "pstate.next_tag()":
+                    n_tests += 1
+                    rhs = c.comparators[0]
+                    names = rhs.elts if isinstance(rhs, (ast.Tuple, ast.List,
+                                                         ast.Set)) else [rhs]
+                    if not isinstance(c.ops[0], (ast.Is, ast.Eq, ast.In)) or \
+                            not all(isinstance(n_, ast.Name)
+                                    and n_.id in table.tagvars for n_ in names):
+                        raise AnalysisError("comma branch: look-ahead test not "
+                                            "understood: " + ast.unparse(c))
+                    closers |= {table.tagvars[n_.id] for n_ in names}
+        if n_tests != 1:
+            raise AnalysisError("comma branch: expected one look-ahead test on "
+                                f"the token after the comma, found {n_tests}")
         flags = {"trailing": True, "extend": True}
         seen = set()
         for ps in pss:
@@ -529,7 +549,8 @@ def _recognise_postfix(tags, guard, gop, body, params, table):
             raise AnalysisError("comma branch: absorb/extend paths not recognised")
         return Branch(tags, guard, gop, "COMMA", "Tuple",
                       right_prec=precs.pop() if len(precs) == 1 else None,
-                      extra={"final_respected": flags})
+                      extra={"final_respected": flags,
+                             "closers": frozenset(closers)})
     # --- infix operators ----------------------------------------------------------------
     clss = {(_clsname(v[1]) if v[0] == "call" else None) for v in vals}
     if len(clss) != 1 or None in clss:
@@ -1032,7 +1053,8 @@ class ModelParser:
             fr = (br.extra or {}).get("final_respected",
                                       {"trailing": True, "extend": True})
             is_final = left[0] in ("FinalTuple", "FinalList")
-            if self.at_end() or self.tag() == "closepar":
+            if self.at_end() or self.tag() in (br.extra or {}).get(
+                    "closers", {"closepar"}):
                 if left[0] == "Tuple" or (is_final and not fr["trailing"]):
                     return left
                 return ("Tuple", (left,))
